@@ -163,11 +163,24 @@ STD_RULES = [
 
 # rule 5: range-for over a lowered vector (the vector must not be modified in the loop;
 # checked by range_for_guard below)
+# range-for with a structured binding over a vector<pair<int,int>>:  for (auto [a, b] : xs) {
+RANGE_FOR_PAIR = re.compile(r'\bfor\s*\(\s*(?:const\s+)?auto\s*&?\s*\[\s*(\w+)\s*,\s*(\w+)\s*\]\s*:\s*(\w+)\s*\)\s*\{')
 RANGE_FOR = re.compile(r'\bfor\s*\(\s*(?:const\s+)?(\w+(?:\s+\w+)?)(?:\s*&\s*|\s+)(\w+)\s*:\s*(\w+)\s*\)\s*\{')
 
 
 def lower_range_for(text, log):
     n = 0
+    k = 0
+    while True:
+        m = RANGE_FOR_PAIR.search(text)
+        if not m:
+            break
+        a, b, vec = m.group(1), m.group(2), m.group(3)
+        idx = '_i_%s%d' % (vec, k)
+        k += 1
+        head = 'for (int %s = 0; %s < %s_size; ++%s) { int %s = %s[%s].first; int %s = %s[%s].second;' % (idx, idx, vec, idx, a, vec, idx, b, vec, idx)
+        text = text[:m.start()] + head + text[m.end():]
+        n += 1
     while True:
         m = RANGE_FOR.search(text)
         if not m:
@@ -375,6 +388,8 @@ def attach_loop_contracts(text, loops, what, base_line=None, repo_file=None):
     ins = []
     for lp in loops:
         k = int(lp['ordinal'])
+        if (k < 1 or k > len(heads)) and lp.get('optional'):
+            continue
         if k < 1 or k > len(heads):
             raise ExtractionBroken('%s: loop ordinal %d but body has %d loops' % (what, k, len(heads)))
         ins.append((heads[k - 1][1] + 1, lp['contract'].strip()))
@@ -419,6 +434,8 @@ def insert_ghosts(text, ghosts, what, base_line=None, repo_file=None):
         rx = g.get('after') or g.get('before')
         ms = list(re.finditer(rx, text))
         want = int(g.get('count', 1))
+        if not ms and g.get('optional'):
+            continue
         if len(ms) != want:
             raise ExtractionBroken('%s: ghost anchor %r matched %d times (need %d)' % (what, rx, len(ms), want))
         for m in ms:
